@@ -315,6 +315,11 @@ func c05comboOptions() []c05opt {
 }
 
 var c05comboProbes = []string{
+	// a local that shadows a builtin the same scope has already used by name (the builtin is cached in the scope's store
+	// without being a definition): the slot of the new local must be counted in NumLocals
+	"n := len(\"ab\")\nlen := n + 1\nreturn len", "x := [1]\nn := len(x)\nlen := n + 1\nreturn len", "a := int\nint := 3\nreturn int",
+	"f := func() {\n  n := len([1])\n  len := n\n  return len\n}\nreturn f()", "p := string\nif p {\n  string := 1\n  return string\n}\nreturn 0",
+	"x := [2]\nfor i in x {\n  n := len(x)\n  len := n + i\n  return len\n}", "param a\nn := len(a)\nvar len\nreturn [n, len]", "n := cap([1])\nconst c = 1\ncap := c + n\nreturn cap",
 	// names that are literal constants (no local slot) where a statement stores to a name: catch identifier, for-in
 	// variables, destructuring, parameters of a nested function, assignment
 	"try {\n  const e = 1\n} catch e {\n}", "a := 5\ntry {\n  const e = 1\n  throw \"x\"\n} catch e {\n}\nreturn a",
